@@ -120,7 +120,8 @@ class Recorder:
         self.cur_inst = ""
         self._rec_seen = {}     # (inst, exec) -> snapshot
         self._hist_seen = {}
-        self._hist_last = {}    # (inst, exec) -> length
+        self._hist_last = {}
+        self._evstate = {}    # (inst, exec) -> length
         self.enabled = True
         self.frame_ops = 0
 
@@ -211,7 +212,18 @@ class Recorder:
             sname = st.get("Name") if isinstance(st.get("Name"), str) else ""
             exid = ex.get("Id") if isinstance(ex.get("Id"), str) else ""
             retry = st.get("RetryCount", 0)
-            self.emit("pub", kind="event", exec=exid or "", state=sname or "",
+            # a start event published by the engine launches a child execution: which kind of launch (the Resource
+            # of the Task state whose event triggered this frame)
+            childkind = ""
+            if not sname and self.trig and self.in_frame:
+                for tm in self.trig:
+                    tsm, tname = self._evstate.get(tm, ("", ""))
+                    res = getattr(w, "_types", {}).get(tsm, {}).get("#resource:" + (tname or getattr(w, "_types", {}).get(tsm, {}).get("", "")), "")
+                    if "startExecution" in res or "startSyncExecution" in res:
+                        childkind = "sync" if (res.endswith((".sync", ".sync:2", ".waitForTaskToken")) or "startSyncExecution" in res) else "async"
+            if base.get("mid"):
+                self._evstate[base["mid"]] = (smid, sname or "")
+            self.emit("pub", kind="event", exec=exid or "", state=sname or "", childkind=childkind,
                       branch=[[str(b.get("ID", "")), b.get("Index", -1), b.get("Length", -1), b.get("Range", "")]
                               for b in br if isinstance(b, dict)],
                       bparent=(br[-1].get("Parent", "") if br and isinstance(br[-1], dict) else "") or "",
@@ -888,6 +900,8 @@ def _state_types(asl):
             if not isinstance(st, dict):
                 continue
             out[n] = st.get("Type", "")
+            if isinstance(st.get("Resource"), str):
+                out["#resource:" + n] = st["Resource"]
             for b in st.get("Branches", []) or []:
                 if isinstance(b, dict) and isinstance(b.get("States"), dict):
                     walk(b["States"])
